@@ -122,7 +122,22 @@ POOL = [
     {"op": "dialect_get", "name": "snowflake"}, {"op": "dialect_get", "name": "bigquery"}, {"op": "dialect_get", "name": "postgres"}, {"op": "dialect_get", "name": "mysql"},
     {"op": "dialect_get", "name": "doris"}, {"op": "dialect_get", "name": "fabric"}, {"op": "dialect_get", "name": "risingwave"}, {"op": "dialect_get", "name": "dune"},
     {"op": "classes"},
+    {"op": "classes_iter"},
 ]
+
+# Statements in the base dialect made of functions that many dialects print in their own way (time formats, date-integer
+# conversions, JSON paths, string concatenation, casts): generated for EVERY dialect, so that a generator class whose tables
+# were snapshotted or finished too early - by whichever thread got there first - prints something observably different.
+WIDE1 = ("SELECT STR_TO_DATE(s, '%Y-%m-%d') AS d1, DATE_TO_DI(d) AS i1, DI_TO_DATE(i) AS d2, TS_OR_DS_TO_DATE(s) AS d3, STR_TO_TIME(s, '%Y-%m-%d %H:%M:%S') AS t1, "
+         "TIME_TO_STR(t, '%Y') AS y, STR_TO_UNIX(s, '%Y-%m-%d') AS u, UNIX_TO_STR(u, '%Y') AS us, DATE_ADD(d, 1) AS d4, DATE_TRUNC('day', d) AS dt FROM t")
+WIDE2 = ("SELECT CAST(a AS TEXT) AS c, b || c AS cc, ARRAY(1, 2) AS arr, JSON_EXTRACT(j, '$.a') AS je, JSON_EXTRACT_SCALAR(j, '$.b[0]') AS js, SAFE_DIVIDE(a, b) AS sd, "
+         "IF(a > 1, 1, 0) AS f, x ILIKE 'y' AS il, APPROX_DISTINCT(a) AS ad, LEVENSHTEIN(p, q) AS lv, a DIV b AS fd, TRY_CAST(z AS INT) AS tc FROM t LIMIT 5")
+ALL_DIALECTS = ["athena", "bigquery", "clickhouse", "databricks", "doris", "dremio", "drill", "druid", "duckdb", "dune", "exasol", "fabric", "hive", "materialize", "mysql",
+                "oracle", "postgres", "presto", "prql", "redshift", "risingwave", "singlestore", "snowflake", "solr", "spark", "spark2", "sqlite", "starrocks", "tableau",
+                "teradata", "trino", "tsql"]
+for _d in ALL_DIALECTS:
+    POOL.append({"op": "generate", "sql": WIDE1, "read": None, "write": _d, "opts": {}})
+    POOL.append({"op": "generate", "sql": WIDE2, "read": None, "write": _d, "opts": {}})
 
 FAMILIES = [
     ["oracle", "snowflake", "postgres"],
@@ -132,6 +147,7 @@ FAMILIES = [
     ["postgres", "redshift", "materialize", "risingwave"],
     ["tsql", "fabric"],
     ["duckdb"], ["snowflake"], ["bigquery"], ["clickhouse"], ["oracle"], ["teradata"], ["sqlite"], ["exasol"],
+    ["drill"], ["druid"], ["dremio"], ["tableau"], ["solr"], ["prql"], ["dune", "trino"], ["spark2", "hive"], ["databricks", "spark"],
 ]
 
 _REFS = {}
@@ -249,6 +265,28 @@ def generate(prop, run_seed, tier):
             c = T(q, d, rng.choice([d, d, "duckdb", "snowflake", "postgres"]))
         k = rng.choice([1, 2, 3])
         scripts = [[copy.deepcopy(c) for _ in range(k)] for _ in range(n)]
+    elif warm and rng.random() < 0.35:
+        # write-focus contention: every thread generates for ONE dialect with ONE option set, each its own sample of a few
+        # statements that touch per-generator state (anonymous alias counter, unsupported-message list, identifier quoting
+        # toggles) - whatever that dialect's generator shares between instances is then written by several threads at once
+        from sim.corpus import corpus
+
+        wd = rng.choice(ALL_DIALECTS)
+        opts = dict(rng.choice([{}, {}, {"unsupported_level": "RAISE"}, {"unsupported_level": "RAISE"}, {"identify": True}, {"pretty": True}]))
+        fams = corpus.stateful_families()
+        cand = fams["anon_alias"] + fams["anon_alias"] + fams["signature"] + fams["unsupported"] + fams["lambda"] + [(None, WIDE2), (None, "SELECT a FROM t")]
+        stmts = [cand[rng.randrange(len(cand))] for _ in range(rng.choice([2, 3, 4]))]
+        scripts = [[{"op": "generate", "sql": q, "read": d, "write": wd, "opts": opts} for d, q in (stmts[rng.randrange(len(stmts))] for _ in range(rng.choice([2, 3, 4])))]
+                   for _ in range(n)]
+    elif not warm and rng.random() < 0.06:
+        # registry-shaped run: one thread loads (nearly) every dialect, another enumerates the registry, the others first-use
+        # the dialects that were left out
+        skip = rng.sample(ALL_DIALECTS, rng.choice([0, 1, 1, 2]))
+        scripts = [[{"op": "load_many", "skip": sorted(skip)}], [{"op": rng.choice(["classes", "classes_iter"])}]]
+        scripts += [[{"op": "dialect_get", "name": d_}] for d_ in skip]
+        if rng.random() < 0.5:
+            scripts[1].insert(0, {"op": "load_many", "skip": sorted(skip)})
+        n = len(scripts)
     if warm:
         strat = rng.choice(["random", "random", "random", "pct"])
     cfg = {
